@@ -1016,13 +1016,6 @@ int main()
                     sg = (!r.ok && !r.threw && r.errors > 0) ? "rej" : "acc";
                 }
             }
-            std::string cross;
-            {
-                // a geometric archive given to the control loader (control PlannerData, 1 control dimension) and
-                // a control archive given to the geometric loader
-                LoadOut r = loadPD(pds->node, ctl ? -1 : 1, !ctl, bytes, false);
-                cross = (!r.ok && !r.threw && r.errors > 0) ? "rej" : "acc";
-            }
             size_t tested = 0, nbad = 0;
             std::string first;
             for (size_t off : truncOffsets(bytes.size(), *natAt(2), {}))
@@ -1045,9 +1038,33 @@ int main()
                     ++nbad;
                 }
             }
-            std::cout << "ok=1 " << full.dump << " marker=" << mk << " sig=" << sg << " cross=" << cross
-                      << " # bytes=" << bytes.size() << " trunc=" << tested << "/" << nbad << (nbad ? "/" + first : "")
+            std::cout << "ok=1 " << full.dump << " marker=" << mk << " sig=" << sg << " # bytes=" << bytes.size() << " trunc=" << tested << "/" << nbad << (nbad ? "/" + first : "")
                       << std::endl;
+        }
+        else if (op == "pdcross" && t.size() == 1 && pds)
+        {
+            // a geometric archive given to the control loader (control PlannerData with 1 control dimension) and a
+            // control archive given to the geometric loader: the marker differs, load must return false.
+            // The check puts this op last: the current code can die here (finding F-C09-d).
+            bool ctl = pds->cdim >= 0;
+            std::string bytes;
+            {
+                std::ostringstream out;
+                if (ctl)
+                {
+                    oc::PlannerDataStorage st;
+                    st.store(*pds->pd, out);
+                }
+                else
+                {
+                    ob::PlannerDataStorage st;
+                    st.store(*pds->pd, out);
+                }
+                bytes = out.str();
+            }
+            std::cout << "cross=" << std::flush;
+            LoadOut r = loadPD(pds->node, ctl ? -1 : 1, !ctl, bytes, false);
+            std::cout << ((!r.ok && !r.threw && r.errors > 0) ? "rej" : "acc") << " # threw=" << r.threw << std::endl;
         }
         else
             bad();
